@@ -24,13 +24,13 @@ theorem collectItems_nil (ex tot : Nat) (imp : Bool) (rem : List Sexp) (env : En
     collectItems ex tot imp [] rem env = .ok env := by
   simp [collectItems]
 
-/-- a well-formed pattern list never matches a form that is not a list -/
-theorem match_nested_nonlist (sc : List Name) (qs : List Pat) (f : Sexp) (hw : wfList qs = true)
+/-- a pattern list that is not of the form `(p ... . r)` never matches a form that is not a list -/
+theorem match_nested_nonlist (sc : List Name) (qs : List Pat) (f : Sexp) (hk : isManyRest qs = false)
     (hf : ∀ xs imp, f ≠ .list xs imp) : matchSingle sc (.nested qs) f = false := by
   have key : ∀ (m p : Pat), qs ≠ [Pat.many m, Pat.rest p] := by
     intro m p h
     subst h
-    simp [wfList, wfSimples, wf1] at hw
+    simp [isManyRest] at hk
   cases f with
   | list xs imp => exact absurd rfl (hf xs imp)
   | id a b =>
@@ -62,25 +62,33 @@ theorem match_nested_nonlist (sc : List Name) (qs : List Pat) (f : Sexp) (hw : w
         · rename_i m p; exact absurd rfl (key m p)
         · rfl
 
+/-- `Exact1 (.nested qs)` restricted to forms that are lists (no well-formedness premise: the callers supply
+the shape of `qs`). -/
+def ExactL (qs : List Pat) : Prop :=
+  (Pat.nested qs).vars.Nodup → ∀ (xs : List Sexp) (imp : Bool) (sc : List Name) (env0 e' : Env),
+    normal (.list xs imp) = true → matchSingle sc (.nested qs) (.list xs imp) = true →
+    collectOne (.nested qs) (.list xs imp) env0 = .ok e' →
+    (∀ v ∈ (Pat.nested qs).vars, e'.b.get v ≠ none) ∧
+    ∀ (env : Env) (n : Nat) (c : ICtx) (fb : Bindings),
+      AgreeOn env e' (Pat.nested qs).vars → cleanFor env (.list xs imp) →
+      (∀ s ∈ (Pat.nested qs).lits, env.b.get s = none) →
+      (Sexp.list xs imp).depth < n → visit n c env fb (tmpl1 (.nested qs)) = .ok (.list xs imp)
+
 theorem collectOne_nested_list (qs : List Pat) (xs : List Sexp) (imp : Bool) (env0 : Env) :
     collectOne (.nested qs) (.list xs imp) env0 =
-      if xs.length + 1 < qs.length then .error .panic
-      else collectItems (xs.length + 1 - qs.length) xs.length imp qs xs env0 := by
+      collectItems (expectedCaptures qs xs.length imp) xs.length imp qs xs env0 := by
   simp [collectOne]
 
 theorem nested_simples (qs : List Pat) (hall : ∀ q ∈ qs, Exact1 q) (hs : wfSimples qs = true) :
-    Exact1 (.nested qs) := by
-  intro hw hnd f sc env0 e' hnf hm hc
-  cases f with
-  | list xs imp =>
+    ExactL (qs) := by
+  intro hnd xs imp sc env0 e' hnf hm hc
+  focus
       obtain ⟨himp, hms⟩ := match_simples_facts sc qs xs imp hs hnf hm
       subst himp
       have hlen := matchSimples_length sc qs xs hms
       rw [collectOne_nested_list] at hc
-      have hnot : ¬ xs.length + 1 < qs.length := by omega
-      simp only [hnot, if_false] at hc
       have hcs : collectSimples qs xs env0 = .ok e' := by
-        have := collectItems_simples (xs.length + 1 - qs.length) xs.length false [] qs xs [] env0 hs hlen
+        have := collectItems_simples (expectedCaptures qs xs.length false) xs.length false [] qs xs [] env0 hs hlen
         simp only [List.append_nil] at this
         rw [this] at hc
         simp only [collectItems_nil] at hc
@@ -103,10 +111,6 @@ theorem nested_simples (qs : List Pat) (hall : ∀ q ∈ qs, Exact1 q) (hs : wfS
             omega
           rw [SV.2 env n c fb hA (cleanFor_mem env xs false hcl) (by simpa [Pat.lits] using hl) hd']
           simp [Sexp.mkList]
-  | id a b => rw [match_nested_nonlist sc qs _ hw (by intro xs imp h; cases h)] at hm; cases hm
-  | kw a => rw [match_nested_nonlist sc qs _ hw (by intro xs imp h; cases h)] at hm; cases hm
-  | int a => rw [match_nested_nonlist sc qs _ hw (by intro xs imp h; cases h)] at hm; cases hm
-  | bool a => rw [match_nested_nonlist sc qs _ hw (by intro xs imp h; cases h)] at hm; cases hm
 
 
 theorem varsList_append : ∀ (a b : List Pat), Pat.varsList (a ++ b) = Pat.varsList a ++ Pat.varsList b
@@ -189,10 +193,9 @@ theorem substAtom_bound (c : ICtx) (env : Env) (n : Name) (v : Sexp) (hn : n ≠
   | _ => rfl
 
 theorem nested_rest (pre : List Pat) (r : Name) (hall : ∀ q ∈ pre, Exact1 q) (hs : wfSimples pre = true)
-    (hr : r ≠ wildcard) : Exact1 (.nested (pre ++ [.rest (.var r)])) := by
-  intro hw hnd f sc env0 e' hnf hm hc
-  cases f with
-  | list xs imp =>
+    (hr : r ≠ wildcard) : ExactL ((pre ++ [.rest (.var r)])) := by
+  intro hnd xs imp sc env0 e' hnf hm hc
+  focus
       obtain ⟨hle, hms⟩ := match_rest_facts sc pre r xs imp hs hm
       have hlen_px : (if imp = true then xs.dropLast else xs).length ≤ xs.length := by
         cases imp <;> simp
@@ -212,8 +215,6 @@ theorem nested_rest (pre : List Pat) (r : Name) (hall : ∀ q ∈ pre, Exact1 q)
         simp at this
         omega
       rw [collectOne_nested_list] at hc
-      have hnot : ¬ xs.length + 1 < (pre ++ [Pat.rest (Pat.var r)]).length := by simp; omega
-      simp only [hnot, if_false] at hc
       have hsplit : xs = xs.take pre.length ++ xs.drop pre.length := by simp
       rw [hsplit] at hc
       rw [collectItems_simples _ _ _ _ pre _ _ _ hs (by simp [hple]), bindE_ok_iff] at hc
@@ -292,10 +293,6 @@ theorem nested_rest (pre : List Pat) (r : Name) (hall : ∀ q ∈ pre, Exact1 q)
               simp; omega
             have hta : xs.take pre.length ++ xs.drop pre.length = xs := List.take_append_drop _ _
             rw [hl2, mkList_rest (xs.take pre.length) (xs.drop pre.length) imp (by rw [hta]; exact hnf) hne, hta]
-  | id a b => rw [match_nested_nonlist sc _ _ hw (by intro xs imp h; cases h)] at hm; cases hm
-  | kw a => rw [match_nested_nonlist sc _ _ hw (by intro xs imp h; cases h)] at hm; cases hm
-  | int a => rw [match_nested_nonlist sc _ _ hw (by intro xs imp h; cases h)] at hm; cases hm
-  | bool a => rw [match_nested_nonlist sc _ _ hw (by intro xs imp h; cases h)] at hm; cases hm
 
 
 end SteelVerif.C13
